@@ -67,10 +67,12 @@ def main():
     atoms = Atoms("Ar" * n, positions=rng.uniform(0, 6, (n, 3)), cell=[7.0, 7.0, 7.0], pbc=True)
     atoms.calc = Harmonic(k=0.2)
     mode = c["mode"]
+    targets = {k: os.path.join(d, f) for k, f in (("logfile", "run.log"), ("trajectory", "run.xyz"), ("restart_file", "run.json"))}
+    if c.get("handles") == "fileobj":
+        # the user hands over files they opened themselves (ordinary block-buffered text handles)
+        targets = {k: open(v, c.get("handle_mode", "w")) for k, v in targets.items()}  # noqa: SIM115
     mc = GrandCanonical(atoms, Atoms("H2", positions=[[0, 0, 0], [0.74, 0, 0]]), temperature=3000.0, chemical_potential=c["mu"],
-                        number_of_exchange_particles=n, seed=c["seed"], max_cycles=2, logfile=os.path.join(d, "run.log"),
-                        trajectory=os.path.join(d, "run.xyz"), restart_file=os.path.join(d, "run.json"), logging_mode=mode,
-                        logging_interval=1)
+                        number_of_exchange_particles=n, seed=c["seed"], max_cycles=2, logging_mode=mode, logging_interval=1, **targets)
     mc.add_move(ExchangeMove(np.arange(n), bias_towards_insert=c["bias"]), name="e")
     mc.add_move(DisplacementMove(np.arange(n)), name="d")
     for obs, tag in ((mc.default_logger, "log"), (mc.default_trajectory, "traj"), (mc.default_restart, "restart")):
